@@ -123,7 +123,11 @@ class Known(object):
             ok = True
             for k, v in m.items():
                 dv = desc.get(k)
-                if isinstance(v, list):
+                if k == "kf":
+                    if v not in (dv or []):
+                        ok = False
+                        break
+                elif isinstance(v, list):
                     if dv not in v:
                         ok = False
                         break
@@ -258,8 +262,18 @@ def run_check(prop_cls, tier, seed, replay=None):
             recs_cache[fi] = open(tw.files[fi]).read().splitlines()
         return json.loads(recs_cache[fi][li - 1])
 
+    # clauses named KF_* are known-finding classifiers evaluated by TLC: a "rejection" of KF_x on a
+    # record means the record matches classifier x (it is not a violation by itself)
+    kf_hits = {}
     for fi, li, clause in rejected:
+        if clause.startswith("KF_"):
+            kf_hits.setdefault((fi, li), []).append(clause)
+    for fi, li, clause in rejected:
+        if clause.startswith("KF_"):
+            continue
         rec = get_rec(fi, li)
+        if (fi, li) in kf_hits:
+            rec["kf"] = kf_hits[(fi, li)]
         scn = tw.scns[tw.index[fi][li - 1]]
         violations.append({"clause": clause, "source": "trace", "rec": rec, "scn": scn})
 
